@@ -177,7 +177,7 @@ pub fn c09(a: &Args) {
     let mut shown = 0;
     for_each_model(&cfg, &mut rng, |file, tt| {
         let Ok(mut d) = load(file) else { return };
-        one(&mut out, &mut r2, file, tt, &mut d, tmax.min(tt.n as usize + 1), repeats);
+        one(&mut out, &mut r2, file, tt, &mut d, tmax, repeats);
         if shown < 4 { shown += 1; out.sample(format!("{} n={} count={}: t=1..{} plain and fitness-guided, {} runs each", file.origin, file.n, tt.count(), tmax, repeats)); }
     });
     // corpus: validity and coverage for t = 1, 2 on the repository models (judged by the model itself: sat / count queries)
